@@ -17,7 +17,9 @@ RULE = ('cases = corpus + random scenarios: 1-2 cookies set with Response.set_co
         '128-255, > 255, empty, 4096/4097 long; signed values = nested picklable objects; secrets incl. non-ASCII, '
         'empty), the emitted Set-Cookie values become the Cookie header of a new Request, optionally edited by an '
         'attacker (single-byte substitution with 8 byte values per position, deletion, truncation, insertion, '
-        'signature swap between two cookies, replay of another cookie under this name, reading with another '
+        'signature swap between two cookies, replay of another cookie under this name, sum- / multiset-preserving '
+        'alterations of the signature (adjacent swap, +k/-k on two characters or on two decoded bytes, rotation, '
+        'reversal), reading with another '
         'secret), then Request.get_cookie and Request.cookies; in 30% of the scenarios 1-3 further get_cookie reads on '
         'the SAME request (names of the cookies sent, secrets from right / another / empty / None), each compared with '
         'a fresh request; pickle.loads observed through a recording proxy. '
@@ -165,6 +167,44 @@ def find(l, x, start=0):
         return -1
 
 
+def pm_edit(modulus, p, q, k, l):
+    if p == q:
+        return l
+    l = list(l)
+    l[q] = (l[q] + modulus - k % modulus) % modulus
+    l[p] = (l[p] + k) % modulus
+    return l
+
+
+def sig_edit(sub, a, repl, sig):
+    n = len(sig)
+    if n == 0:
+        return sig
+    r0 = repl[0] if len(repl) > 0 else 0
+    k = repl[1] if len(repl) > 1 else 1
+    p, q = a % n, r0 % n
+    if sub == 0:
+        if n < 2:
+            return sig
+        i = a % (n - 1)
+        return sig[:i] + [sig[i + 1], sig[i]] + sig[i + 2:]
+    if sub == 1:
+        return pm_edit(128, p, q, k, sig)
+    if sub == 2:
+        return sig[p:] + sig[:p]
+    if sub == 3:
+        return sig[::-1]
+    import binascii
+    try:
+        bs = list(base64.b64decode(bytes(sig)))
+    except (binascii.Error, ValueError):
+        return sig
+    m = len(bs)
+    if m == 0:
+        return sig
+    return list(base64.b64encode(bytes(pm_edit(256, a % m, r0 % m, k, bs))))
+
+
 def tamper(t, wires, cookies=()):
     """the attacker's edit of the Cookie header; same definition as Cookie.v:tamper"""
     if t['kind'] == 4 and cookies and cookies[0]['secret']:
@@ -185,6 +225,14 @@ def tamper(t, wires, cookies=()):
             hdr += [59, 32]
         hdr += w
     k = t['kind']
+    if k == 5 and wires:
+        # alterations of the signature that keep the multiset or the sum of its bytes (same as Cookie.v:sig_edit)
+        w1 = wires[0]
+        p1 = find(w1, 33)
+        q1 = find(w1, 63, p1 + 1) if p1 >= 0 else -1
+        if p1 < 0 or q1 < 0:
+            return hdr
+        return w1[:p1 + 1] + sig_edit(t['b'], t['a'], list(t['repl']), w1[p1 + 1:q1]) + w1[q1:]
     if k == 1:
         a = t['a'] % (len(hdr) + 1)
         return hdr[:a] + list(t['repl']) + hdr[a + t['b']:]
@@ -291,6 +339,12 @@ def corpus():
         scn([('a', obj, S), ('b', [1, 2], S)], dict(kind=2, a=0, b=0, repl=[])),    # signature swap
         scn([('a', obj, S), ('b', [1, 2], S)], dict(kind=3, a=0, b=0, repl=[])),    # replay b's value as a
         scn([('a', obj, S), ('a', [1, 2], S)]),                                     # same name twice
+        # signature alterations that keep the sum / the multiset of its bytes (a compare that adds up differences)
+        scn([('a', obj, S)], dict(kind=5, a=3, b=1, repl=[9, 1])),      # +1 on one character, -1 on another
+        scn([('a', obj, S)], dict(kind=5, a=0, b=0, repl=[])),          # two adjacent characters swapped
+        scn([('a', obj, S)], dict(kind=5, a=5, b=2, repl=[])),          # rotated
+        scn([('a', obj, S)], dict(kind=5, a=0, b=3, repl=[])),          # reversed
+        scn([('a', obj, S)], dict(kind=5, a=2, b=4, repl=[11, 3])),     # +3 / -3 on two decoded MAC bytes
         scn([('a', 1, S)], dict(kind=4, a=0, b=0, repl=cps('gAWV?CQAAAAAAAACMAWGUSwGGlC4='))),   # re-signed, '?' in the message
         scn([('a', 1, S)], dict(kind=4, a=0, b=0, repl=cps('gAWVCQAAAAAAAACMAWGUSwGGlC4'))),     # re-signed, bad padding
         scn([('a', 1, S)], dict(kind=4, a=0, b=0, repl=cps('gAWVCQAAAAAAAACMAWGUSwGG'))),        # re-signed, truncated pickle
@@ -436,9 +490,17 @@ def mutate_msg(rng, c):
     return m
 
 
+def gen_sig_edit(rng):
+    """sum- or multiset-preserving alterations of the signature: on the base64 text and on the decoded bytes"""
+    sub = rng.choice([0, 0, 1, 1, 1, 2, 3, 4, 4])
+    return dict(kind=5, a=rng.randrange(0, 400), b=sub, repl=[rng.randrange(0, 64), rng.choice([1, 1, 2, 3, 7])])
+
+
 def gen_tamper(rng, two):
     r = rng.random()
     a = rng.randrange(0, 400)
+    if r < 0.2:
+        return gen_sig_edit(rng)
     if r < 0.45:
         return dict(kind=1, a=a, b=1, repl=[rng.choice(SUBST + [rng.randrange(256)])])
     if r < 0.55:
@@ -1293,7 +1355,7 @@ def classify(case, obs):
     if case['mode'] != 'scn':
         return case['mode']
     k = case['tamper']['kind']
-    t = ['untouched', 'splice', 'sigswap', 'replay', 'resigned'][k]
+    t = ['untouched', 'splice', 'sigswap', 'replay', 'resigned', 'sigedit'][k]
     kind = 'signed' if case['cookies'][0]['secret'] else 'plain'
     st = obs.get('st')
     return 'scn/%s/%s/%s/%s' % (kind, t, st, (obs.get('got') or ['-'])[0])
